@@ -61,9 +61,13 @@ func (h *TwoPartyHandler) Listen() <-chan *Message {
 }
 
 func (h *TwoPartyHandler) Stop() {
+	h.mtx.Lock()
+	defer h.mtx.Unlock()
+	// nothing to stop if the protocol has already finished or aborted (the channel is closed by then)
 	if h.err != nil || h.result != nil {
-		h.abort(errors.New("aborted by user"))
+		return
 	}
+	h.abort(errors.New("aborted by user"))
 }
 
 func (h *TwoPartyHandler) String() string {
